@@ -306,10 +306,12 @@ def FileStoreRequestTlv.packetLen (r : FileStoreRequestTlv) : Nat :=
   commonPacketLen r.action r.first r.second
 def FileStoreRequestTlv.tlvType (_ : FileStoreRequestTlv) : Nat := tFsRequest
 /-- `FileStoreRequestTlv.from_tlv`: starts from the empty request (action 0, names ""),
-    `_set_fields` overwrites the second name only when one was decoded -/
+    `_set_fields` refuses a value field that does not end with the names (`idx != len(raw_data)`)
+    and overwrites the second name only when one was decoded -/
 def FileStoreRequestTlv.fromTlv (t : CfdpTlv) : Py FileStoreRequestTlv := do
   if t.ttype ≠ tFsRequest then throw .tlvType
   let c ← commonUnpacker t.value
+  if c.idx ≠ t.value.length then throw .value
   match c.second with
   | some s => pure ⟨c.action, c.first, s⟩
   | none => pure ⟨c.action, c.first, []⟩
@@ -339,12 +341,14 @@ def FileStoreResponseTlv.value (r : FileStoreResponseTlv) : Py Bytes := do
 def FileStoreResponseTlv.packetLen (r : FileStoreResponseTlv) : Nat :=
   commonPacketLen r.action r.first r.second + r.msg.packetLen
 def FileStoreResponseTlv.tlvType (_ : FileStoreResponseTlv) : Nat := tFsResponse
-/-- `FileStoreResponseTlv.from_tlv` / `_set_fields` -/
+/-- `FileStoreResponseTlv.from_tlv` / `_set_fields`: the value field must end with the filestore
+    message LV (`idx + filestore_msg.packet_len != len(data)` is refused) -/
 def FileStoreResponseTlv.fromTlv (t : CfdpTlv) : Py FileStoreResponseTlv := do
   if t.ttype ≠ tFsResponse then throw .tlvType
   let c ← commonUnpacker t.value
   let st ← enumOf statusCodesNat (c.action * 16 + c.status)
   let m ← CfdpLv.unpack (t.value.drop c.idx)
+  if c.idx + m.packetLen ≠ t.value.length then throw .value
   match c.second with
   | some s => pure ⟨c.action, (st : Int), c.first, s, m⟩
   | none => pure ⟨c.action, (st : Int), c.first, [], m⟩
